@@ -5,8 +5,10 @@ package scn
 
 import (
 	"fmt"
+	"regexp"
 	"sort"
 	"strings"
+	"sync"
 
 	"github.com/named-data/ndnd/fw/core"
 	"github.com/named-data/ndnd/fw/dispatch"
@@ -639,13 +641,122 @@ func Setup(fib string, s Scenario) {
 	// the real NLSR readvertiser is registered with the RIB, as with readvertise_nlsr=true
 	var rv *mgmt.NlsrReadvertiser
 	rv, rvTransport = mgmt.VerifNewReadvertiser()
-	table.VerifResetReadvertisers(rv)
+	rvNlsr = rv
+	rvEvents = &ribEvents{}
+	// (the recorder is registered after the real readvertiser: a notification is in its list once
+	// the real readvertiser has returned from it)
+	if RecordNotifications {
+		table.VerifResetReadvertisers(rv, rvEvents)
+	} else {
+		table.VerifResetReadvertisers(rv)
+	}
 	for _, op := range s.Init {
 		op.Run(func() {})
 	}
 }
 
 var rvTransport *face.InternalTransport
+var rvNlsr *mgmt.NlsrReadvertiser
+var rvEvents *ribEvents
+
+// RecordNotifications: register the recording readvertiser. Switched off by the free-running -race
+// pass, which compares no final states: the recorder's lock would order the threads' notifications
+// for the race detector, and that pass must see exactly the ordering the repository code provides.
+var RecordNotifications = true
+
+// ribEvents is a second readvertiser registered with the RIB: it records every Announce / Withdraw
+// notification the RIB delivers (routes of EVERY origin, also the withdrawals the NLSR readvertiser
+// swallows while other routes keep the prefix advertised) in the order delivered. It has a lock of
+// its own, like the NLSR readvertiser (notifications may come from any thread); the lock is the
+// real sync.Mutex and nothing yields while it is held.
+type ribEvents struct {
+	mu sync.Mutex
+	ev []ribEvent
+}
+type ribEvent struct{ prefix, what string }
+
+func (r *ribEvents) note(kind string, name enc.Name, route *table.Route) {
+	e := ribEvent{prefix: "<nil>", what: kind + " <nil route>"}
+	if name != nil {
+		e.prefix = name.String()
+	}
+	if route != nil {
+		e.what = fmt.Sprintf("%s f%d o%d c%d", kind, route.FaceID, route.Origin, route.Cost)
+	}
+	r.mu.Lock()
+	r.ev = append(r.ev, e)
+	r.mu.Unlock()
+}
+func (r *ribEvents) Announce(name enc.Name, route *table.Route) { r.note("announce", name, route) }
+func (r *ribEvents) Withdraw(name enc.Name, route *table.Route) { r.note("withdraw", name, route) }
+
+// perPrefix renders a list of (prefix, item) in the order given as "prefix[item item ...]" sorted by
+// prefix: the order of the items of ONE prefix is kept, the order between prefixes is not (a face
+// clean-up walks sibling prefixes in Go map order).
+func perPrefix(prefix, item []string) string {
+	m := map[string][]string{}
+	for i, p := range prefix {
+		m[p] = append(m[p], item[i])
+	}
+	keys := []string{}
+	for k := range m {
+		keys = append(keys, k)
+	}
+	sort.Strings(keys)
+	out := []string{}
+	for _, k := range keys {
+		out = append(out, k+"["+strings.Join(m[k], ", ")+"]")
+	}
+	return strings.Join(out, " ")
+}
+
+// readvertised renders what the readvertisers were told, as sections of the final state:
+//   - the number of commands sent to NLSR;
+//   - the prefixes NLSR holds as advertised once all operations have completed = the last command
+//     sent for each prefix (register / unregister);
+//   - the commands per prefix in the order sent, with origin and cost;
+//   - the NLSR readvertiser's own count of advertised routes per prefix (decides whether a later
+//     withdrawal is passed on);
+//   - the RIB's Announce/Withdraw notifications per prefix in the order delivered.
+//
+// After all operations completed each must be what SOME sequential order of the operations leaves
+// (the same order that explains the tables).
+func readvertised() string {
+	cmds := mgmt.VerifReadvertised(rvTransport)
+	var cp, ci []string
+	last := map[string]string{}
+	for _, c := range cmds {
+		cp = append(cp, c.Prefix)
+		ci = append(ci, c.Verb+" "+c.Args)
+		last[c.Prefix] = c.Verb
+	}
+	var net []string
+	for p, v := range last {
+		net = append(net, p+"="+v)
+	}
+	sort.Strings(net)
+	var cnt []string
+	for _, n := range []string{"/", "/a", "/a/b", "/d", "/e", "/q", "/r"} {
+		if c := rvNlsr.VerifAdvertisedCount(nm(n)); c != 0 {
+			cnt = append(cnt, fmt.Sprintf("%s=%d", n, c))
+		}
+	}
+	var ep, ei []string
+	rvEvents.mu.Lock()
+	for _, e := range rvEvents.ev {
+		ep = append(ep, e.prefix)
+		ei = append(ei, e.what)
+	}
+	rvEvents.mu.Unlock()
+	return fmt.Sprintf("readvertised commands:%d", len(cmds)) +
+		SecSep + "readvertised prefixes NLSR is left with (last command per prefix):" + strings.Join(net, ",") +
+		SecSep + "readvertised commands per prefix in the order sent:" + perPrefix(cp, ci) +
+		SecSep + "readvertiser count of advertised routes:" + strings.Join(cnt, ",") +
+		SecSep + "readvertise notifications of the RIB per prefix in the order delivered:" + perPrefix(ep, ei)
+}
+
+// ReadvertiseSection reports whether a section name (DiffSections) is one of readvertised().
+func ReadvertiseSection(sec string) bool { return strings.HasPrefix(sec, "readvertis") }
 
 // again: for every lookup operation (by name) the same lookup as a plain read.
 var again = map[string]func() string{}
@@ -692,7 +803,7 @@ func Final() string {
 	var nh, st strings.Builder
 	// (first, before any other lookup: the face and dispatch tables under every id)
 	ff := finalFaces()
-	for _, n := range []string{"/", "/a", "/a/b", "/a/b/c", "/a/zz", "/zz", "/c", "/c/zz", "/e", "/e/x", "/d", "/d/x", "/r"} {
+	for _, n := range []string{"/", "/a", "/a/b", "/a/b/c", "/a/zz", "/zz", "/c", "/c/zz", "/e", "/e/x", "/d", "/d/x", "/r", "/q"} {
 		// (plain reads: observing the final state keeps nothing)
 		fmt.Fprintf(&nh, "%s=>{%s} ", n, nhStr(table.FibStrategyTable.FindNextHopsEnc(nm(n))))
 		fmt.Fprintf(&st, "%s=>%s ", n, stStr(table.FibStrategyTable.FindStrategyEnc(nm(n))))
@@ -707,7 +818,7 @@ func Final() string {
 	}
 	sort.Strings(ids)
 	b.WriteString(SecSep + "faces listed:" + strings.Join(ids, ",") + SecSep + "faces by id:" + ff)
-	fmt.Fprintf(&b, SecSep+"readvertised commands:%d", rvTransport.VerifSendQueueLen())
+	b.WriteString(SecSep + readvertised())
 	return b.String()
 }
 
@@ -740,6 +851,17 @@ func All(thorough bool) []Scenario {
 		"F1": {FaceDown(1)},
 		"F2": {FaceDown(2)},
 		"P1": {FaceProbe()},
+		// readvertised (client-origin) routes: registration, unregistration and teardown of the SAME
+		// (prefix, face) - on /q, which nothing else advertises (every announce/withdraw becomes a
+		// command to NLSR), and on /r, which two other faces keep advertised (the readvertiser only
+		// counts) - and a second registration of the same route (the update path)
+		"R1": {RibAdd("/q", 3, table.RouteOriginClient, 2, 0)},
+		"R2": {RibRemove("/q", 3, table.RouteOriginClient)},
+		"R3": {FaceDown(3)},
+		"R4": {RibAdd("/r", 3, table.RouteOriginClient, 2, 0)},
+		"R5": {RibRemove("/r", 3, table.RouteOriginClient)},
+		"R6": {RibAdd("/q", 3, table.RouteOriginClient, 9, CI)},
+		"R7": {RibAdd("/q", 3, table.RouteOriginClient, 4, 0), RibRemove("/q", 3, table.RouteOriginClient)},
 		"L1": {Lookup("/a/b")},
 		"L2": {Lookup("/a/zz"), LookupStrategy("/a/b")},
 		"L3": {Lookup("/a/b/c"), Lookup("/a")},
@@ -754,17 +876,27 @@ func All(thorough bool) []Scenario {
 	// (registration/removal, face teardown, FIB/strategy updates, forwarding lookups); they are
 	// used only to observe the final state.
 	isReader := func(k string) bool { return k[0] == 'L' || k[0] == 'P' }
+	quickR := map[string]bool{}
+	for _, k := range []string{"R1R2", "R1R3", "R1R6", "R1R7", "R2R6", "R2R7", "R3R6", "R3R7", "R6R7", "R4R5", "R3R4", "M5R4", "M5R5", "F1R4"} {
+		quickR[k] = true // same (prefix, face) on both sides, or the same prefix and the counting path
+	}
 	for i, a := range keys {
 		for _, b := range keys[i+1:] {
 			if isReader(a) && isReader(b) {
 				continue
 			}
+			// (quick tier: the readvertised-route programs R* against each other, against the other
+			// client-origin program M5 and against the teardowns of the faces that keep /r advertised;
+			// the thorough tier pairs them with everything)
+			if !thorough && (a[0] == 'R' || b[0] == 'R') && !quickR[a+b] {
+				continue
+			}
 			out = append(out, Scenario{Name: a + "||" + b, Init: init, Threads: [][]Op{progs[a], progs[b]}})
 		}
 	}
-	triples := [][3]string{{"M1", "F1", "L1"}, {"M2", "M3", "L3"}, {"M1", "L1", "L3"}, {"X3", "X1", "L3"}, {"F1", "F2", "L1"}, {"M4", "F2", "L3"}}
+	triples := [][3]string{{"M1", "F1", "L1"}, {"M2", "M3", "L3"}, {"M1", "L1", "L3"}, {"X3", "X1", "L3"}, {"F1", "F2", "L1"}, {"M4", "F2", "L3"}, {"R1", "R2", "R3"}}
 	if thorough {
-		triples = append(triples, [3]string{"M1", "M2", "L1"}, [3]string{"M3", "F1", "L2"}, [3]string{"X2", "M2", "L3"}, [3]string{"S1", "S2", "L2"}, [3]string{"M4", "M1", "L1"}, [3]string{"F1", "M3", "L3"})
+		triples = append(triples, [3]string{"R4", "R5", "F1"}, [3]string{"R1", "R6", "R2"}, [3]string{"R7", "R3", "R6"}, [3]string{"M1", "M2", "L1"}, [3]string{"M3", "F1", "L2"}, [3]string{"X2", "M2", "L3"}, [3]string{"S1", "S2", "L2"}, [3]string{"M4", "M1", "L1"}, [3]string{"F1", "M3", "L3"})
 	}
 	for _, t := range triples {
 		out = append(out, Scenario{Name: t[0] + "||" + t[1] + "||" + t[2], Init: init, Threads: [][]Op{progs[t[0]], progs[t[1]], progs[t[2]]}})
@@ -880,12 +1012,19 @@ func All(thorough bool) []Scenario {
 		// belongs to the face being torn down (G9) and on one that keeps a route (GA)
 		"G9": {MgmtStrategySet("/a/b", "mc")},
 		"GA": {MgmtStrategySet("/a", "br"), MgmtStrategyUnset("/a")},
+		// readvertised (client-origin) routes of the face being torn down: a new prefix registered
+		// (guarded by the face / on the arrival face), the existing route on /r unregistered and
+		// registered again
+		"GC": {MgmtRegister("/q", 0, table.RouteOriginClient, 1, 0)},
+		"GD": {MgmtUnregister("/r", 0, table.RouteOriginClient), MgmtRegister("/r", 0, table.RouteOriginClient, 3, 0)},
+		"GE": {MgmtRegisterSelf("/q", 0, table.RouteOriginClient, 1, 0)},
+		"GF": {MgmtRegister("/q", 1, table.RouteOriginClient, 1, 0), MgmtUnregister("/q", 1, table.RouteOriginClient)},
 	}
 	keysD := []string{}
 	for k := range progsD {
 		// (quick tier: the second face's teardown-then-lookup, the unguarded self-registration and the
 		// next-hop removal are left to the thorough tier)
-		if !thorough && (k == "D4" || k == "G5" || k == "G8" || k == "DQ" || k == "DR" || k == "GA") {
+		if !thorough && (k == "D4" || k == "G5" || k == "G8" || k == "DQ" || k == "DR" || k == "GA" || k == "GE" || k == "GF") {
 			continue
 		}
 		keysD = append(keysD, k)
@@ -895,6 +1034,10 @@ func All(thorough bool) []Scenario {
 		for _, b := range keysD[i+1:] {
 			if (a[0] == 'G' && b[0] == 'G') || (a[1] >= 'L' && b[1] >= 'L' && a[0] == 'D' && b[0] == 'D') {
 				continue // one management thread; two reader-only threads are family C's subject
+			}
+			// (quick tier: the readvertised registrations only against the teardowns)
+			if !thorough && (a == "GC" || a == "GD" || b == "GC" || b == "GD") && !(a[0] == 'D' && a[1] <= '9' || b[0] == 'D' && b[1] <= '9') {
+				continue
 			}
 			out = append(out, Scenario{Name: "D:" + a + "||" + b, Init: initD, Threads: [][]Op{progsD[a], progsD[b]}})
 		}
@@ -958,6 +1101,12 @@ func familyE(thorough bool) []Scenario {
 		"W9": {RibRemove("/e", 1, 0), RibAdd("/e", 1, 0, 6, 0)},
 		"WA": {UnsetStrategy("/e"), SetStrategyTo("/e", "mc")},
 		"WB": {RibRemove("/e", 2, 0)},
+		// a readvertised (client-origin) route of face 2 on /e: registered, unregistered, its face
+		// torn down, registered and unregistered again by one thread
+		"WC": {RibAdd("/e", 2, table.RouteOriginClient, 3, 0)},
+		"WD": {RibRemove("/e", 2, table.RouteOriginClient)},
+		"WE": {FaceDown(2)},
+		"WG": {RibAdd("/e", 2, table.RouteOriginClient, 5, 0), RibRemove("/e", 2, table.RouteOriginClient)},
 		"WL": {LookupStrategy("/e/x"), Lookup("/e/x")},
 	}
 	keys := []string{}
@@ -979,7 +1128,14 @@ func familyE(thorough bool) []Scenario {
 				// (pairs of two route/next-hop updates on one prefix are families A and B's subject and
 				// are repeated here, per shape, in the thorough tier); of the second "set" program W2 and
 				// the removal of face 2's route only W1||W2 (two sets colliding)
-				if !thorough && !isStrategy(a) && !isStrategy(b) && a != "WL" && b != "WL" {
+				isRv := func(k string) bool { return k == "WC" || k == "WD" || k == "WE" || k == "WG" }
+				if !thorough && (isRv(a) || isRv(b)) {
+					// quick tier: the readvertised-route programs against each other only, and only from
+					// the shapes without a strategy choice (WD||WE: two removals of a route that is not there)
+					if !(isRv(a) && isRv(b)) || a+b == "WDWE" || strings.HasSuffix(sh.name, "s") {
+						continue
+					}
+				} else if !thorough && !isStrategy(a) && !isStrategy(b) && a != "WL" && b != "WL" {
 					continue
 				}
 				if !thorough && (a == "WB" || b == "WB" || ((a == "W2" || b == "W2") && a+b != "W1W2")) {
@@ -998,6 +1154,12 @@ func familyE(thorough bool) []Scenario {
 	}
 	return out
 }
+
+var rvProg = regexp.MustCompile(`(^|:|\|)(R[0-9]|G[C-F]|W[CDEG])(\||$)`)
+
+// Readvertised reports whether a scenario contains one of the thread programs that register,
+// unregister or tear down a readvertised (client-origin) route of their own (R*, GC-GF, WC-WG).
+func Readvertised(name string) bool { return rvProg.MatchString(name) }
 
 // Family is the scenario family a scenario name belongs to ("A", "B", "C", "D", "E").
 func Family(name string) string {
